@@ -1090,7 +1090,7 @@ func knownShapeC18(c *vCaseC18) string {
 		walk(c.Tree, "")
 		switch {
 		case viaDir: // A2/A3: a selected directory below the symlinked, unselected ancestor
-			return "C18:include-filter-selected-dir-below-preexisting-symlink"
+			return "C18:selected-dir-below-symlinked-ancestor"
 		case viaOther: // A: only files/special nodes below it
 			return "C18:include-filter-follows-preexisting-dir-symlink"
 		}
